@@ -216,7 +216,7 @@ func genLC(rt *rapid.T, gates bool, known map[string]bool, col *Collector) []lcS
 			}
 			if k == "gateHandshake" {
 				st.Car = rapid.SampledFrom([]string{"websocket", "webtransport"}).Draw(rt, l+".gcar")
-				st.Cause = rapid.SampledFrom([]string{"drop", "dropInOpenFlush", "dropInOpenFlush", "none", "dropHeldInOnClose", "dropHeldInOnClose", "dropBeforeOpen", "dropBeforeOpen", "dropRegistered", "dropRegistered"}).Draw(rt, l+".gcause")
+				st.Cause = rapid.SampledFrom([]string{"drop", "dropInOpenFlush", "dropInOpenFlush", "none", "dropHeldInOnClose", "dropHeldInOnClose", "dropBeforeOpen", "dropBeforeOpen", "dropRegistered", "dropRegistered", "dropWhileAttaching", "closeFrameWhileAttaching", "closeFrameWhileAttaching"}).Draw(rt, l+".gcause")
 			}
 			st.Rev = 4
 			if st.Car != "webtransport" && rapid.IntRange(0, 3).Draw(rt, l+".rev3") == 0 {
@@ -737,6 +737,10 @@ func (lw *lcWorld) handshake(st lcStep) {
 	} else if gated && st.Cause == "dropBeforeOpen" {
 		// the session is attached to its transport (whose reader runs) and not yet declared open
 		gp = lw.arm("socket.Construct.listening")
+	} else if gated && (st.Cause == "dropWhileAttaching" || st.Cause == "closeFrameWhileAttaching") {
+		// the session has attached its packet listener to the transport (whose reader runs from then on), the
+		// listeners for the transport's drain and close events come next
+		gp = lw.arm("socket.setTransport.reading")
 	} else if gated && st.Cause == "dropRegistered" {
 		// the session is in the client table and counted, the server's close listener is not attached yet
 		gp = lw.arm("server.Handshake.registered")
@@ -814,6 +818,26 @@ func (lw *lcWorld) handshake(st lcStep) {
 				}
 				s.addCause("drop")
 				Settle()
+			case "dropWhileAttaching":
+				lw.stats["peer-gone-while-the-session-attaches-to-its-transport"] = true
+				if s.wc != nil {
+					s.wc.Drop()
+				} else {
+					s.tc.Drop()
+				}
+				s.addCause("drop")
+				Settle()
+			case "closeFrameWhileAttaching":
+				// the peer says goodbye by the book (a close frame / closing its WebTransport session) and leaves
+				// its connection to the server to finish: writes to it still succeed for a while
+				lw.stats["peer-says-goodbye-while-the-session-attaches-to-its-transport"] = true
+				if s.wc != nil {
+					s.wc.SendClose(1000, "bye")
+				} else {
+					s.tc.CloseSession(0, "bye")
+				}
+				s.addCause("drop")
+				Settle()
 			case "dropRegistered":
 				lw.stats["peer-gone-between-registration-and-the-server's-close-listener"] = true
 				if s.wc != nil {
@@ -871,6 +895,11 @@ func (lw *lcWorld) handshake(st lcStep) {
 		if s.tc != nil && s.tc.Open != nil {
 			s.sid = s.tc.Sid
 		}
+	}
+	if s.sid == "" && gated && len(w.Order) == before+1 {
+		// the client went away before it read its open packet, and the session was announced all the same: it is
+		// followed like any other session whose peer has gone
+		s.sid = w.Order[len(w.Order)-1]
 	}
 	if connAct != "" {
 		s.addCause(map[string]string{"connCloseNow": "appCloseNow", "connClose": "appClose"}[connAct])
@@ -1423,7 +1452,7 @@ func TestC03Lifecycle(t *testing.T) {
 		req = append(req, "cause-inside-Close-window")
 	}
 	if !known[sigDiedInHS] {
-		req = append(req, "cause-during-handshake", "close-half-done-while-the-handshake-registers-the-session", "peer-gone-before-the-session-is-declared-open", "peer-gone-between-registration-and-the-server's-close-listener")
+		req = append(req, "cause-during-handshake", "close-half-done-while-the-handshake-registers-the-session", "peer-gone-before-the-session-is-declared-open", "peer-gone-between-registration-and-the-server's-close-listener", "peer-gone-while-the-session-attaches-to-its-transport", "peer-says-goodbye-while-the-session-attaches-to-its-transport")
 	}
 	col.RequireClasses(t, req...)
 }
@@ -1458,7 +1487,7 @@ func TestC04Registry(t *testing.T) {
 	}
 	req := []string{"closed-session-named-with-transport-polling", "closed-session-named-with-transport-websocket", "server-close", "shutdown>=2-sessions", "activity-after-close", "table-consolidated-inside-delete-window", "table-consolidated-inside-lookup-window", "closed-inside-the-connection-listener", "server-write-fails-before-its-reader-notices", "peer-stops-reading"}
 	if !known[sigDiedInHS] {
-		req = append(req, "cause-during-handshake", "close-half-done-while-the-handshake-registers-the-session", "peer-gone-before-the-session-is-declared-open", "peer-gone-between-registration-and-the-server's-close-listener")
+		req = append(req, "cause-during-handshake", "close-half-done-while-the-handshake-registers-the-session", "peer-gone-before-the-session-is-declared-open", "peer-gone-between-registration-and-the-server's-close-listener", "peer-gone-while-the-session-attaches-to-its-transport", "peer-says-goodbye-while-the-session-attaches-to-its-transport")
 	}
 	col.RequireClasses(t, req...)
 }
